@@ -16,7 +16,7 @@ use vpmodel::spec::{BlockSpec, ChainSpec, InSpec, OutSpec, Src, TxSpec};
 pub const C07: PropDef = PropDef {
     id: "C07",
     level: "exploration",
-    rule: "part 'small-histories' (bounded-exhaustive): every history of <=2 non-coinbase transactions over <=2 blocks, each with 1..2 inputs drawn from all outputs created so far (same block included, the same output twice, an outpoint unknown to the range) and outputs that do or do not carry an address (quick: one output per tx; thorough: 1..2 outputs per tx, plus all 3-transaction single-block histories), with and without --start 1; part 'random-histories': chains up to 25 blocks and hundreds of transactions with fan-in/fan-out, same-block spends, unknown outpoints, zero values, duplicate coinbases (identical txid), transactions with >255 outputs whose high indices are spent, on all 8 coins with random ranges. Oracle: unspent-S-E.csv = header once + exactly the row set of the reference UTXO map (remove inputs, then insert address-bearing outputs, per tx in block order; same outpoint replaces), no duplicates. Non-trivial = at least one in-range spend of an in-range output and at least one address-less output; distinct by history hash.",
+    rule: "part 'small-histories' (bounded-exhaustive): every history of <=2 non-coinbase transactions over <=2 blocks, each with 1..2 inputs drawn from all outputs created so far (same block included, the same output twice, an outpoint unknown to the range), or being a verbatim duplicate of an earlier transaction (identical txid, also inside one block, also after its outputs were spent), and outputs that do or do not carry an address (quick: one output per tx; thorough: 1..2 outputs per tx, plus all 3-transaction single-block histories), with and without --start 1; part 'random-histories': chains up to 25 blocks and hundreds of transactions with fan-in/fan-out, same-block spends, unknown outpoints, zero values, duplicate coinbases (identical txid), transactions with >255 outputs whose high indices are spent, on all 8 coins with random ranges; part 'large-utxo-set': two histories whose final UTXO set has 70 000 / 131 500 rows. Oracle: unspent-S-E.csv = header once + exactly the row set of the reference UTXO map (remove inputs, then insert address-bearing outputs, per tx in block order; same outpoint replaces), no duplicates. Non-trivial = at least one in-range spend of an in-range output and at least one address-less output; distinct by history hash.",
     assumptions: &["row order is unspecified (hash-map order): rows are compared as a set"],
     run: run_c07,
     replay: replay_c07,
@@ -25,7 +25,7 @@ pub const C07: PropDef = PropDef {
 pub const C08: PropDef = PropDef {
     id: "C08",
     level: "exploration",
-    rule: "the histories of C07 with a small pool of keys so that addresses recur (many outputs per address, the same key paid as P2PK and P2PKH, addresses emptied and re-funded), values bounded so that sums fit u64. Oracle 1: balances-S-E.csv = header + exactly one row per address of the reference aggregation (exact u128 sums); oracle 2 (model-free): the per-address aggregation of the unspent-S-E.csv produced by unspentcsvdump on the same directory and range equals the balances file. Non-trivial = some address with >=2 unspent outputs and some address that was funded and is fully spent; distinct by history hash.",
+    rule: "the histories of C07 with a small pool of keys so that addresses recur (many outputs per address, the same key paid as P2PK and P2PKH, addresses emptied and re-funded), values bounded so that sums fit u64; plus two histories with 70 000 / 131 500 unspent outputs over 7 addresses. Oracle 1: balances-S-E.csv = header + exactly one row per address of the reference aggregation (exact u128 sums); oracle 2 (model-free): the per-address aggregation of the unspent-S-E.csv produced by unspentcsvdump on the same directory and range equals the balances file. Non-trivial = some address with >=2 unspent outputs and some address that was funded and is fully spent; distinct by history hash.",
     assumptions: &["value sums fit u64 (generator bound)", "an address whose unspent outputs are all zero-valued is listed with balance 0, as the statement says"],
     run: run_c08,
     replay: replay_c08,
@@ -121,7 +121,7 @@ pub fn small_histories(k: usize, max_blocks: usize, rich: bool) -> Vec<Case> {
         outs: usize,
     }
     fn cb(i: u8) -> TxSpec {
-        TxSpec { version: 1, locktime: 0, inputs: vec![InSpec { src: Src::Null, script_sig: vec![1, i], sequence: 0xffff_ffff, witness: vec![] }], outputs: vec![OutSpec { value: 50, script: pool_script(Coin::Bitcoin, i, 0) }], segwit: false }
+        TxSpec { version: 1, locktime: 0, inputs: vec![InSpec { src: Src::Null, script_sig: vec![1, i], sequence: 0xffff_ffff, witness: vec![] }], outputs: vec![OutSpec { value: 50, script: pool_script(Coin::Bitcoin, i, 0) }], segwit: false, dup_of: None }
     }
     fn known(j: usize, len: usize) -> Src {
         Src::Known((((j as u64) * 65536 + len as u64 - 1) / len as u64) as u16)
@@ -160,6 +160,7 @@ pub fn small_histories(k: usize, max_blocks: usize, rich: bool) -> Vec<Case> {
                     inputs: ins.iter().map(|s| InSpec { src: s.clone(), script_sig: vec![], sequence: 0, witness: vec![] }).collect(),
                     outputs: ok.iter().enumerate().map(|(n, f)| OutSpec { value: 10 + n as u64, script: pool_script(Coin::Bitcoin, (st.outs + n) as u8, *f) }).collect(),
                     segwit: false,
+                    dup_of: None,
                 };
                 st.blocks[b].push(tx);
                 st.outs += ok.len();
@@ -167,6 +168,18 @@ pub fn small_histories(k: usize, max_blocks: usize, rich: bool) -> Vec<Case> {
                 st.outs -= ok.len();
                 st.blocks[b].pop();
             }
+        }
+        // a verbatim duplicate of an earlier non-coinbase transaction (identical txid; its outputs
+        // are created again, possibly after they were spent)
+        let originals: Vec<usize> = st.blocks.iter().flatten().filter(|t| t.dup_of.is_none()).map(|t| t.outputs.len()).collect();
+        for (j, nout) in originals.iter().enumerate() {
+            let sel = (((j as u64) * 65536 + originals.len() as u64 - 1) / originals.len() as u64) as u16;
+            let tx = TxSpec { version: 1, locktime: 0, inputs: vec![], outputs: vec![], segwit: false, dup_of: Some(sel) };
+            st.blocks[b].push(tx);
+            st.outs += nout;
+            rec(st, r0, r1, nblocks, rich, acc);
+            st.outs -= nout;
+            st.blocks[b].pop();
         }
         if first_in_b1 {
             st.outs -= 1;
@@ -194,6 +207,19 @@ pub fn small_histories(k: usize, max_blocks: usize, rich: bool) -> Vec<Case> {
         }
     }
     out
+}
+
+/// a history whose final UTXO set exceeds 65 536 rows (a few recurring addresses), for
+/// implementations that treat large sets differently (chunking, parallel aggregation)
+pub fn large_cases() -> Vec<Case> {
+    let mut v = Vec::new();
+    for (coin, n) in [(Coin::Bitcoin, 70_000usize), (Coin::Litecoin, 131_500usize)] {
+        let scripts: Vec<Vec<u8>> = (0..n).map(|i| pool_script(coin, (i % 7) as u8, ((i / 7) % 5) as u8)).collect();
+        let values: Vec<u64> = (0..97u64).map(|k| 1 + k * k * 1000).collect();
+        let chain = vpmodel::spec::chain_from_scripts(coin, &scripts, &values, 250, 40, 0, 1_400_000_000);
+        v.push(Case { chain, start_sel: None, end_sel: None });
+    }
+    v
 }
 
 struct Analysis {
@@ -339,12 +365,14 @@ fn run_c07(eng: &Engine, a: &Args) {
     }
     let tier = a.tier;
     eng.explore("random-histories", scaled(n, a), move || random_strategy(tier, false), check_c07);
+    eng.enumerate("large-utxo-set", large_cases(), check_c07);
 }
 
 fn run_c08(eng: &Engine, a: &Args) {
     let n = if a.tier == Tier::Quick { 300 } else { 4000 };
     let tier = a.tier;
     eng.explore("random-histories", scaled(n, a), move || random_strategy(tier, true), check_c08);
+    eng.enumerate("large-utxo-set", large_cases(), check_c08);
     if a.tier == Tier::Thorough {
         eng.enumerate("small-histories", small_histories(2, 2, true), check_c08);
     }
@@ -352,14 +380,14 @@ fn run_c08(eng: &Engine, a: &Args) {
 
 fn replay_c07(part: &str, case: serde_json::Value) -> Option<Verdict> {
     match part {
-        "small-histories" | "small-histories-3tx-1block" | "random-histories" => Some(check_c07(&serde_json::from_value(case).ok()?)),
+        "small-histories" | "small-histories-3tx-1block" | "random-histories" | "large-utxo-set" => Some(check_c07(&serde_json::from_value(case).ok()?)),
         _ => None,
     }
 }
 
 fn replay_c08(part: &str, case: serde_json::Value) -> Option<Verdict> {
     match part {
-        "small-histories" | "random-histories" => Some(check_c08(&serde_json::from_value(case).ok()?)),
+        "small-histories" | "random-histories" | "large-utxo-set" => Some(check_c08(&serde_json::from_value(case).ok()?)),
         _ => None,
     }
 }
